@@ -281,6 +281,11 @@ func (e StdEng) denseConcat(a DenseTensor, axis int, Ts []DenseTensor) (DenseTen
 		return nil, errors.Wrap(err, "Unable to find new shape that results from concatenation")
 	}
 
+	// Shape.Concat reads AllAxes as the outermost axis; the copying below has to use the same axis
+	if axis == AllAxes {
+		axis = 0
+	}
+
 	retVal := recycledDense(a.Dtype(), newShape, WithEngine(e))
 	if isMasked {
 		retVal.makeMask()
